@@ -46,7 +46,7 @@ seq_t dtw_distance{{ suffix }}{{ suffix2 }}(seq_t *s1, idx_t l1,
     idx_t dl;
     // DTWPruned
     idx_t sc = 0;
-    idx_t ec = 0;
+    idx_t ec = settings->psi_2b;  // the psi-relaxed first row is 0 up to this column
     bool smaller_found;
     idx_t ec_next;
     // signal(SIGINT, dtw_int_handler); // not compatible with OMP
@@ -247,7 +247,8 @@ seq_t dtw_distance{{ suffix }}{{ suffix2 }}(seq_t *s1, idx_t l1,
                 #ifdef DTWDEBUG
                 printf("dtw[%zu] = %f > %f\n", curidx, dtw[curidx], max_dist);
                 #endif
-                if (!smaller_found) {
+                if (!smaller_found && i >= settings->psi_1b) {
+                    // Rows that can still start at the psi-relaxed first column need column 0
                     sc = j + 1;
                 }
                 if (j >= ec) {
